@@ -388,7 +388,7 @@ def coq_shadow_case(c):
 
 # ================================================================ xmm cases
 def gen_xmm(rng, kind):
-    """16 registers of 4 words (bits 0-63, 64-127, 128-191, 192-255) + a clobber"""
+    """16 vector registers of 8 words (word i = bits 64i..64i+63) + a clobber"""
     def word(k):
         if k == "zero":
             return 0
@@ -404,11 +404,11 @@ def gen_xmm(rng, kind):
         if hi is None:
             hi = word(rng.choice(["rnd", "rnd", "ones", "zero", "nan"]))
         if kind == "upper-zero":
-            u = (0, 0)
+            up = [0] * 6
         else:
-            u = (word(rng.choice(["rnd", "rnd", "ones", "nan"])), word(rng.choice(["rnd", "ones", "zero"])))
-        before.append((lo, hi) + u)
-    clobber = [tuple(rng.getrandbits(64) if rng.random() < 0.7 else 0 for _ in range(4)) for _ in range(16)]
+            up = [word(rng.choice(["rnd", "rnd", "ones", "nan", "zero"])) for _ in range(6)]
+        before.append(tuple([lo, hi] + up))
+    clobber = [tuple(rng.getrandbits(64) if rng.random() < 0.7 else 0 for _ in range(8)) for _ in range(16)]
     return before, clobber
 
 
@@ -416,11 +416,11 @@ def run_xmm(h, before, clobber):
     ws = []
     for r in before + clobber:
         ws += ["%x" % w for w in r]
-    rc, out, err = h.run(["YMM " + " ".join(ws)], 2)
+    rc, out, err = h.run(["VEC " + " ".join(ws)], 2)
     k = out[0].partition(" | ")[0].split()
-    avx = k[1] == "1"
-    vals = [int(x, 16) for x in k[2:66]]
-    return avx, [tuple(vals[4 * i:4 * i + 4]) for i in range(16)]
+    level = int(k[1])
+    vals = [int(x, 16) for x in k[2:130]]
+    return level, [tuple(vals[8 * i:8 * i + 8]) for i in range(16)]
 
 
 def run_hook_xmm(h, rng):
@@ -443,21 +443,24 @@ def run_hook_xmm(h, rng):
     return res
 
 
-def run_hook_ymm(h, rng):
-    """the same with ymm0-15 (AVX machines): -> [(hook, before, after)] or [] without AVX"""
-    if not have_avx():
-        return []
+def run_hook_vec(h, rng):
+    """mcount_entry / mcount_exit called with chosen whole vector registers (the widest the CPU has) while the libc
+    stand-in overwrites them and ends with vzeroupper -> [(level, hook, before, after)]"""
     def words(regs):
         return " ".join("%x" % w for r in regs for w in r)
     b = [gen_xmm(rng, "rnd")[0] for _ in range(4)]
-    lines = ["P 1 100", "YE 0 1 " + words(b[0]), "P 2 101", "YE 1 2 " + words(b[1]), "YR 2 " + words(b[2]), "YR 1 " + words(b[3])]
+    lines = ["P 1 100", "VE 0 1 " + words(b[0]), "P 2 101", "VE 1 2 " + words(b[1]), "VR 2 " + words(b[2]), "VR 1 " + words(b[3])]
     rc, out, err = h.run(lines, 4)
     res = []
     for hook, bef, line in (("mcount_entry", b[0], out[1]), ("mcount_entry", b[1], out[3]),
                             ("mcount_exit", b[2], out[4]), ("mcount_exit", b[3], out[5])):
         k = line.partition(" | ")[0].split()
-        vals = [int(x, 16) for x in k[-64:]]
-        res.append((hook, bef, [tuple(vals[4 * i:4 * i + 4]) for i in range(16)]))
+        level = int(k[1])
+        vals = [int(x, 16) for x in k[-128:]]
+        nvis = [2, 4, 8][level]
+        # words that do not exist on this machine are not compared: present them as the model computes them
+        bef = [tuple(list(r[:nvis]) + [0] * (8 - nvis)) for r in bef]
+        res.append((level, hook, bef, [tuple(vals[8 * i:8 * i + 8]) for i in range(16)]))
     return res
 
 
@@ -465,8 +468,8 @@ def coq_pairs(l):
     return "[%s]" % "; ".join("(%d, %d)" % p for p in l)
 
 
-def coq_yregs(l):
-    return "[%s]" % "; ".join("((%d, %d), (%d, %d))" % p for p in l)
+def coq_vregs(l):
+    return "[%s]" % "; ".join("[%s]" % "; ".join("%d" % w for w in r) for r in l)
 
 
 PRE = """From Coq Require Import ZArith List Bool String.
@@ -479,7 +482,7 @@ Local Open Scope Z_scope.
 def evaluate_chunk(ctx, scases, xcases, name, hcases=(), tcases=(), ecases=(), dcases=(), ycases=()):
     defs = "Local Open Scope nat_scope.\nDefinition scases : list shadow_case := [\n%s\n].\nLocal Open Scope Z_scope.\n" % ";\n".join(coq_shadow_case(c) for c in scases)
     defs += "Definition xcases : list xmm_case := [\n%s\n].\n" % ";\n".join(
-        "{| xc_avx := %s; xc_before := %s; xc_clobber := %s; xc_after := %s |}" % (coq.coq_bool(v), coq_yregs(b), coq_yregs(c), coq_yregs(a))
+        "{| xc_level := %d%%nat; xc_before := %s; xc_clobber := %s; xc_after := %s |}" % (v, coq_vregs(b), coq_vregs(c), coq_vregs(a))
         for (v, b, c, a) in xcases)
     defs += "Definition hcases : list hook_xmm_case := [\n%s\n].\n" % ";\n".join(
         '{| hx_hook := "%s"%%string; hx_before := %s; hx_after := %s |}' % (hk, coq_pairs(b), coq_pairs(a))
@@ -490,11 +493,12 @@ def evaluate_chunk(ctx, scases, xcases, name, hcases=(), tcases=(), ecases=(), d
         coq_shadow_case(c) for c in ecases)
     defs += "Local Open Scope nat_scope.\nDefinition dcases : list sched_case := [\n%s\n].\nLocal Open Scope Z_scope.\n" % ";\n".join(
         coq_sched_case(c) for c in dcases)
-    defs += "Definition ycases : list hook_ymm_case := [\n%s\n].\n" % ";\n".join(
-        '{| hy_hook := "%s"%%string; hy_before := %s; hy_after := %s |}' % (hk, coq_yregs(b), coq_yregs(a)) for (hk, b, a) in ycases)
+    defs += "Definition ycases : list hook_vec_case := [\n%s\n].\n" % ";\n".join(
+        '{| hv_level := %d%%nat; hv_hook := "%s"%%string; hv_before := %s; hv_after := %s |}' % (lv, hk, coq_vregs(b), coq_vregs(a))
+        for (lv, hk, b, a) in ycases)
     res = coq.run_cases(ctx, name, PRE, defs, [
-        ("y_mismatch", "bad_indices hook_ymm_agrees ycases 0"),
-        ("y_violations", "bad_indices hook_ymm_ok ycases 0"),
+        ("y_mismatch", "bad_indices hook_vec_agrees ycases 0"),
+        ("y_violations", "bad_indices hook_vec_ok ycases 0"),
         ("d_mismatch", "bad_indices sched_agrees dcases 0"),
         ("d_violations", "bad_indices sched_ok dcases 0"),
         ("e_mismatch", "bad_indices est_agrees ecases 0"),
@@ -549,8 +553,8 @@ def evaluate(ctx, scases, xcases, name="cases", chunk=50, hcases=(), tcases=(), 
 # ================================================================ objdump monitor
 ALLOWED_SITES = [
     (r"^(mcount_return|dynamic_return|plthook_return|__xray_exit)$", r"^movdqu\s+(%xmm0,0x10\(%rsp\)|0x10\(%rsp\),%xmm0)$"),
-    (r"^mcount_save_arch_context(_sse|_avx)?(\.\w+)*$", r"^(movdqu\s+%xmm|vmovdqu\s+%ymm)[0-7],(0x[0-9a-f]+)?\(%r\w+\)$"),
-    (r"^mcount_restore_arch_context(_sse|_avx)?(\.\w+)*$", r"^(movdqu\s+(0x[0-9a-f]+)?\(%r\w+\),%xmm|vmovdqu\s+(0x[0-9a-f]+)?\(%r\w+\),%ymm)[0-7]$"),
+    (r"^mcount_save_arch_context(_sse|_avx|_avx512)?(\.\w+)*$", r"^(movdqu\s+%xmm|vmovdqu\s+%ymm|vmovdqu64\s+%zmm)[0-7],(0x[0-9a-f]+)?\(%r\w+\)$"),
+    (r"^mcount_restore_arch_context(_sse|_avx|_avx512)?(\.\w+)*$", r"^(movdqu\s+(0x[0-9a-f]+)?\(%r\w+\),%xmm|vmovdqu\s+(0x[0-9a-f]+)?\(%r\w+\),%ymm|vmovdqu64\s+(0x[0-9a-f]+)?\(%r\w+\),%zmm)[0-7]$"),
     (r"^mcount_(get_register_arg|arch_get_arg|get_struct_arg)(\.\w+)*$", r"^movs[sd]\s+%xmm[0-7],[^%]*\(%r\w+\)$"),
     (r"^mcount_arch_get_retval(\.\w+)*$", r"^(movsd\s+%xmm0,[^%]*\(%r\w+\)|fstpt\s+[^%]*\(%r\w+\)|fldt\s+[^%]*\(%r\w+\))$"),
 ]
@@ -632,6 +636,13 @@ def have_avx():
         return False
 
 
+def have_avx512():
+    try:
+        return " avx512f " in open("/proc/cpuinfo").read()
+    except OSError:
+        return False
+
+
 def compile_prog(workdir, name, src, mode, opt, cflags=()):
     c = os.path.join(workdir, name + ".c")
     if not os.path.exists(c):
@@ -639,7 +650,9 @@ def compile_prog(workdir, name, src, mode, opt, cflags=()):
     exe = os.path.join(workdir, "%s.%s%s" % (name, mode, opt))
     if os.path.exists(exe):
         return exe
-    if "__m256d" in src and not cflags:
+    if "__m512d" in src and not cflags:
+        cflags = ["-mavx512f"]
+    elif "__m256d" in src and not cflags:
         cflags = ["-mavx2"]
     cmd = ["gcc", opt, "-g", "-w"] + list(cflags) + G.MODES[mode][0] + ["-o", exe + ".tmp", c, "-lm", "-pthread"]
     rc, out, err = sh(cmd, timeout=120)
@@ -755,7 +768,7 @@ def e2e(ctx, objdir):
     cdir = os.path.join(VERIF, "corpus", "C01")
     for ci, fn in enumerate(sorted(f for f in os.listdir(cdir) if f.endswith(".json")) if os.path.isdir(cdir) else []):
         c = json.load(open(os.path.join(cdir, fn)))
-        if c.get("needs_avx") and not have_avx():
+        if (c.get("needs_avx") and not have_avx()) or (c.get("needs_avx512") and not have_avx512()):
             continue
         key = "c%d" % ci
         sources[key] = c["source"]
@@ -931,7 +944,7 @@ def run(ctx):
         before, clobber = gen_xmm(ctx.rng, kind)
         avx, after = run_xmm(h, before, clobber)
         xcases.append((avx, before, clobber, after))
-        ctx.case(key=("xmm", tuple(before)), nontrivial=kind != "hi-zero", tags=["xmm:" + kind, "xmm:avx=%d" % avx],
+        ctx.case(key=("xmm", tuple(before)), nontrivial=kind != "hi-zero", tags=["xmm:" + kind, "xmm:level=%d" % avx],
                  sample={"xmm": {"before0": ["%x" % w for w in before[0]], "after0": ["%x" % w for w in after[0]]}}
                  if i == 0 else None)
     hcases = []
@@ -943,9 +956,9 @@ def run(ctx):
                                           "after0": ["%x" % w for w in hc[2][0]]}} if i == 0 and hc[0] == "mcount_exit" else None)
     ycases = []
     for i in range(ctx.n(4, 30)):
-        for hc in run_hook_ymm(h, ctx.rng):
+        for hc in run_hook_vec(h, ctx.rng):
             ycases.append(hc)
-            ctx.case(key=("hookymm", hc[0], tuple(hc[1])), tags=["hookymm:" + hc[0]])
+            ctx.case(key=("hookvec", hc[1], tuple(hc[2])), tags=["hookvec:%s:level=%d" % (hc[1], hc[0])])
     tcases = []
     for i in range(ctx.n(30, 300)):
         tree = gen_tree(ctx.rng, ["tail", "pg", "plttail", "plt", "deep"][i % 5], maxd=4, budget=10)
@@ -1004,14 +1017,15 @@ def verdict(ctx, scases, xcases, res, hcases=(), tcases=(), ecases=(), dcases=()
     if res is None:
         return
     for i in res.get("y_violations", [])[:3]:
-        hk, b, a = ycases[i]
-        ctx.violation("C01 violated: %s does not give back all 256 bits of ymm0-7 when libc code it reaches uses the vector "
-                      "registers and ends with vzeroupper (__m256 arguments / return values of the traced function)" % hk,
+        lv, hk, b, a = ycases[i]
+        ctx.violation("C01 violated: %s does not give back every bit of vector registers 0-7 (%s) when libc code it reaches "
+                      "uses the vector registers and ends with vzeroupper (vector arguments / return values of the traced "
+                      "function)" % (hk, ["xmm", "ymm", "zmm"][lv]),
                       {"kind": "hookxmm", "hook": hk, "before": [list(map(hex, p)) for p in b],
                        "after": [list(map(hex, p)) for p in a]}, True)
     if res.get("y_mismatch") and not res.get("y_violations"):
-        hk, b, a = ycases[res["y_mismatch"][0]]
-        ctx.violation("hook-call ymm contract (Model.hook_call_ymm with the generated wrappers and AVX pair) and the real %s disagree" % hk,
+        lv, hk, b, a = ycases[res["y_mismatch"][0]]
+        ctx.violation("hook-call vector contract (Model.hook_call_vec with the generated wrappers and pairs) and the real %s disagree" % hk,
                       {"kind": "hookxmm", "hook": hk, "before": [list(map(hex, p)) for p in b],
                        "after": [list(map(hex, p)) for p in a]}, False)
     for i in res.get("d_violations", [])[:3]:
@@ -1063,7 +1077,7 @@ def verdict(ctx, scases, xcases, res, hcases=(), tcases=(), ecases=(), dcases=()
     for i in res["x_violations"][:3]:
         v, b, cl, a = xcases[i]
         ctx.violation("C01 violated: mcount_save_arch_context/mcount_restore_arch_context do not give back %s "
-                      "(argument/return registers of the traced function)" % ("all 256 bits of ymm0-7" if v else "xmm0-7"),
+                      "(argument/return registers of the traced function)" % ["xmm0-7", "all 256 bits of ymm0-7", "all 512 bits of zmm0-7"][v],
                       {"kind": "xmm", "before": [list(map(hex, p)) for p in b], "clobber": [list(map(hex, p)) for p in cl],
                        "after": [list(map(hex, p)) for p in a]}, True)
     if res["s_mismatch"] and not res["s_violations"]:
